@@ -45,7 +45,20 @@ func TestCheck(t *testing.T) {
 		r := run.Rand(caseID)
 		g := gen.New(r)
 		noFwd := i%4 == 3
-		x := mon.NewRIBMon(g.S, noFwd)
+		via := 0
+		if i%3 == 2 {
+			via = 1
+			if i%60 == 2 {
+				via = 2
+			}
+		}
+		x, err := mon.NewRIBMonVia(g.S, noFwd, via)
+		if err != nil {
+			run.Fatal(err.Error())
+			return
+		}
+		defer x.Close()
+		run.Seen("programmed_via", mon.ViaName(via))
 		n := 8 + r.Intn(maxLen-8)
 		if run.Thorough() && i%500 == 0 {
 			n = 2000
@@ -128,7 +141,12 @@ func TestCheck(t *testing.T) {
 			return
 		}
 		sp := gen.DefaultSpace()
-		x := mon.NewRIBMon(sp, noFwd)
+		x, err := mon.NewRIBMonVia(sp, noFwd, (i/2)%2) // alternately through package rib and the Modify RPC
+		if err != nil {
+			run.Fatal(err.Error())
+			return
+		}
+		defer x.Close()
 		id := uint64(0)
 		for _, a := range seq {
 			id++
